@@ -816,7 +816,7 @@ def c01(ctx):
     names12 = set()
     for k in (1, 2, 3, 4):
         combos = list(_it.product(SEG, repeat=k))
-        for combo in (combos if k <= 2 else rng.sample(combos, 700 if quick else 6000)):
+        for combo in (combos if k <= 2 else rng.sample(combos, min(len(combos), 700 if quick else 6000))):
             nm = "".join(combo)
             if not nm[0].isdigit():
                 names12.add(nm)
